@@ -106,9 +106,10 @@ package cfg
 //@      && c.BufSize == 10000000 && c.FlushMaxNum == 5000 && c.FlushMaxWait == 500000000 && c.Timeout == 10000000000 && c.Concurrency == 100 && c.OrgID == 1
 //@      && c.ErrBackoffMin == 100000000 && c.ErrBackoffFactor == f64lit("3/2") && (bhasSuffix(c.Addr, "/metrics") || bhasSuffix(c.Addr, "/metrics/"))
 //@ func InitRoutes(table table.Interface, config Config, meta toml.MetaData) (err error)
-//@   // NewSendAllMatch / NewSendFirstMatch never fail (their contracts say so): the two error branches behind them are dead code
+//@   // NewSendAllMatch / NewSendFirstMatch / NewConsistentHashing never fail (their contracts say so): the three error branches behind them are dead code
 //@   unreachable_return "return fmt.Errorf("error adding route '%s'", routeConfig.Key) #1"
 //@   unreachable_return "return fmt.Errorf("error adding route '%s'", routeConfig.Key) #2"
+//@   unreachable_return "return fmt.Errorf("error adding route '%s'", routeConfig.Key) #3"
 //@   property C20
 //@   merge_paths
 //@   nosafety "the TOML meta data is navigated with unchecked type assertions (the decoder's representation); only the option mapping is specified"
